@@ -1,2 +1,135 @@
--- stub: replaced when the area is built
-def main : IO Unit := pure ()
+import Nstd.Common.Basic
+import Nstd.Future.Model
+/-
+  Line protocol of the Future area (replay of a controlled-scheduler trace on the model).
+    cfg q=<n> min=<n> max=<n> lazy=<0|1> tick=<ms> sp=<n> rep=<0|1> | <client ops> | <client ops> ...
+        -> initial state; the main thread runs on to its first scheduling point; prints its events
+    S <tid>      -> `S <tid> en=<enabled threads>` + the O/E/X lines of that scheduler step (macroStep)
+    V            -> [`D <blocked threads>`] `V <DONE|DEADLOCK|RUNNING> steps=<n>`
+    F            -> final summary line (same fields as the harness prints)
+  The output has the format of the harness trace, so the two streams are compared verbatim.
+-/
+open Nstd.Common
+namespace Nstd.Future
+
+structure DState where
+  st : Option State := none
+  steps : Nat := 0
+
+def kvNat (ws : List String) (key : String) (dflt : Nat) : Nat :=
+  match ws.find? (fun w => w.startsWith (key ++ "=")) with
+  | some w => ((w.drop (key.length + 1)).toString.toNat?).getD dflt
+  | none => dflt
+
+def parseInt (s : String) : Option Int :=
+  if s.startsWith "-" then (s.drop 1).toString.toNat?.map (fun n => -(n : Int)) else s.toNat?.map (fun n => (n : Int))
+
+def parseOp (w : String) : Option ClientOp :=
+  match w.toList with
+  | [] => none
+  | k :: rest =>
+    let parts := (String.ofList rest).splitOn ":"
+    let void := k.isUpper
+    match parts with
+    | [] => none
+    | fs :: args =>
+      match fs.toNat? with
+      | none => none
+      | some f0 =>
+        if f0 ≥ 8 then none else
+        let f := if void then f0 + 8 else f0
+        match k.toLower, args with
+        | 's', [a, b] => match parseInt a, parseInt b with
+            | some a, some b => some (.start f a b)
+            | _, _ => none
+        | 'j', [] => some (.join f)
+        | 'r', [] => if void then none else some (.result f)
+        | 'a', [] => some (.abort f)
+        | 'q', [] => some (.query f)
+        | 'd', [] => some (.destroy f)
+        | _, _ => none
+
+def splitBars (ws : List String) : List (List String) :=
+  ws.foldr (fun w acc => if w = "|" then [] :: acc else match acc with
+    | [] => [[w]]
+    | x :: xs => (w :: x) :: xs) [[]]
+
+def parseCfg (ws : List String) : Option Config :=
+  match splitBars ws with
+  | [] => none
+  | hd :: scripts =>
+    let ops := scripts.map (fun sc => sc.map parseOp)
+    if ops.any (fun sc => sc.any Option.isNone) then none
+    else some { q := kvNat hd "q" 2, minT := kvNat hd "min" 0, maxT := kvNat hd "max" 3, lazy := kvNat hd "lazy" 0 = 1,
+                tick := kvNat hd "tick" 0, spurious := kvNat hd "sp" 0, repaired := kvNat hd "rep" 0 = 1,
+                scripts := ops.map (fun sc => sc.filterMap id) }
+
+def liveThreads (s : State) : List Tid :=
+  (List.range s.nthreads).filter (fun t => match s.threads t with
+    | some th => !th.finished
+    | none => false)
+
+def enabledList (s : State) : List Tid := (liveThreads s).filter (fun t => topIsSync s t && enabled s t)
+
+def pendName (s : State) (t : Tid) : String :=
+  match s.threads t with
+  | some { stack := fr :: _, .. } =>
+    match fr with
+    | .sSetLock σ | .sRstLock σ | .sWaitLock σ => s!"lock:{sigName σ}.m"
+    | .sWaitRelock σ => s!"relock:{sigName σ}.m"
+    | .sWaitCwake σ => s!"cwake:{sigName σ}.c"
+    | .runSpLock | .runRetLock => "lock:pool.m"
+    | .cleanJoin _ _ | .mJoin _ | .dJoin _ => "join:thread"
+    | _ => "other"
+  | _ => "none"
+
+def finalLine (s : State) (execs : Nat) : String :=
+  let live := (List.range s.nextCall).filter (fun c => (s.calls c).isSome) |>.length
+  match s.pool with
+  | some p =>
+    let b := fun (x : Bool) => if x then 1 else 0
+    s!"F enq={p.enq}/{b (s.sigs 0).signaled} deq={p.deq}/{b (s.sigs 1).signaled} q={p.ring.head}/{p.ring.tail} pushed={p.pushed} processed={p.processed} threads={p.threadCount} execs={execs} live={live}"
+  | none => s!"F nopool execs={execs} live={live}"
+
+def totalExecs (s : State) : Nat := (List.range s.nextCall).foldl (fun acc c => acc + s.execCount c) 0
+
+def faultLines (s : State) : List String :=
+  match s.fault with
+  | some m => [s!"MODEL-FAULT {m}"]
+  | none => []
+
+def stepLine (d : DState) (ws : List String) : DState × String :=
+  match ws with
+  | "cfg" :: rest =>
+    match parseCfg rest with
+    | none => ({}, "bad-op")
+    | some cfg =>
+      let (s, o) := runOn 10000 (State.init cfg) 0 []
+      ({ st := some s, steps := 0 }, "\n".intercalate ("ok" :: o))
+  | ["S", ts] =>
+    match d.st, ts.toNat? with
+    | some s, some t =>
+      let en := enabledList s
+      let hdr := s!"S {t} en=" ++ ",".intercalate (en.map toString)
+      match macroStep s t with
+      | some (s', o) => ({ st := some s', steps := d.steps + 1 }, "\n".intercalate (hdr :: o ++ faultLines s'))
+      | none => (d, hdr ++ s!"\nMODEL-DISABLED {t}")
+    | _, _ => (d, "bad-op")
+  | ["V"] =>
+    match d.st with
+    | some s =>
+      let live := liveThreads s
+      if live.isEmpty then (d, s!"V DONE steps={d.steps}")
+      else if (enabledList s).isEmpty then
+        (d, "D " ++ " ".intercalate (live.map (fun t => s!"t{t}:{pendName s t}")) ++ s!"\nV DEADLOCK steps={d.steps}")
+      else (d, s!"V RUNNING steps={d.steps}")
+    | none => (d, "bad-op")
+  | ["F"] =>
+    match d.st with
+    | some s => (d, finalLine s (totalExecs s))
+    | none => (d, "bad-op")
+  | _ => (d, "bad-op")
+
+end Nstd.Future
+
+def main : IO Unit := Nstd.Common.ioLoop ({} : Nstd.Future.DState) Nstd.Future.stepLine
